@@ -15,7 +15,7 @@ VERIF = os.path.dirname(os.path.dirname(os.path.abspath(__file__)))
 
 def one(d, tier):
     meta = json.load(open(os.path.join(d, 'meta.json')))
-    prop = meta['property']
+    prop = meta.get('judged_by') or meta['property']     # (a change outside its own property's domain is run against the one it violates)
     tmp = tempfile.mkdtemp(prefix='pamqp_seed_')
     try:
         subprocess.run(['git', '-C', '/repo', 'archive', '--format=tar', 'HEAD', '-o', os.path.join(tmp, 'r.tar')], check=True)
